@@ -42,6 +42,8 @@ def finding_matches(kf: dict, prop: str, oid: str, text: str, function: Optional
     if kf.get("status") != "known" or kf.get("property") != prop:
         return False
     m = kf.get("match", {})
+    if m.get("always") or not any(k in m for k in ("obligation", "function", "text_contains")):
+        return False        # an unprobed finding is reported on every run and can never match (= suppress) a failed obligation
     if "obligation" in m and m["obligation"] != oid:
         return False
     if "function" in m and m["function"] != (function or ""):
